@@ -68,6 +68,7 @@ class RevolveCheckpointSchedule(CheckpointSchedule):
             raise RuntimeError("Invalid forward steps number.")
 
         snapshots = set()
+        last_reads = self._last_reads()
         w_storage = None
         write_ics = False
         adj_deps = False
@@ -85,7 +86,7 @@ class RevolveCheckpointSchedule(CheckpointSchedule):
                         raise InvalidActionIndex
                     write_ics = True
                     adj_deps = False
-                    snapshots.add(w_n0)
+                    snapshots.add((w_storage, w_n0))
                 elif (w_cp_action == "Write_Forward"
                       or w_cp_action == "Write_Forward_memory"):
                     if w_n0 != n_1:
@@ -112,8 +113,8 @@ class RevolveCheckpointSchedule(CheckpointSchedule):
                   or cp_action == "Read_memory"
                   or cp_action == "Read_disk"):
                 self._n = n_0
-                if n_0 == self._max_n - self._r - 1:
-                    snapshots.remove(n_0)
+                if i in last_reads:
+                    snapshots.remove((storage, n_0))
                     yield Move(n_0, storage, StorageType.WORK)
                 else:
                     yield Copy(n_0, storage, StorageType.WORK)
@@ -151,6 +152,24 @@ class RevolveCheckpointSchedule(CheckpointSchedule):
             raise RuntimeError("Unexpected snapshot number.")
         self._exhausted = True
         yield EndReverse()
+
+    def _last_reads(self):
+        """Return the indices of the read operations which are the final use
+        of a checkpoint, i.e. which are not followed by a further read of the
+        same step from the same storage before that checkpoint is rewritten.
+        The data is moved, rather than copied, by these reads.
+        """
+        last_reads = set()
+        read_again = {}
+        for i in reversed(range(len(self._schedule))):
+            cp_action, (n_0, _, storage) = _convert_action(self._schedule[i])
+            if cp_action in ["Read", "Read_memory", "Read_disk"]:
+                if not read_again.get((storage, n_0), False):
+                    last_reads.add(i)
+                read_again[(storage, n_0)] = True
+            elif cp_action in ["Write", "Write_memory", "Write_disk"]:
+                read_again[(storage, n_0)] = False
+        return last_reads
 
     @property
     def is_exhausted(self):
